@@ -2,8 +2,9 @@
  * through mpt_stream_push / mpt_stream_flush (mptio/stream/stream_push.c, stream_flush.c: framed output
  * queue, partial writes), the reader takes them with mpt_stream_poll / mpt_stream_dispatch
  * (stream_poll.c, stream_dispatch.c: reads of arbitrary size into the framed input queue, growth of the
- * ring, mpt_queue_recv / mpt_message_get).  No mechanism model exists for this layer: the tokens are
- * compared with the specification only (received = sent).
+ * ring, mpt_queue_recv / mpt_message_get).  Here the kernel decides the transfer sizes, so the tokens are
+ * compared with the specification only (received = sent); the mechanism-level comparison of the same
+ * functions with scripted transfers is harness/c02_glue.c against coq/Cobs/GlueRun.v.
  *
  * case: <id> <10+variant 0..3 | 14 = command text> <sndbuf> <0> <0> <0> <op>...
  *       <id> <20+variant 0,1 | 24> <size> ...: memory streams (mpt_stream_memory): the writer encodes into a user
